@@ -149,6 +149,26 @@ func c10Corpus(scs []*c10Scenario, add func(*c10Plan)) {
 		// an optimized patch fed to the optimizer again: controls read as BLOCK_RANGE ops
 		plan(sc, "opt", c10FRediff, "optimized patch fed to rediff (bsdiff series read as rsync ops)", sc.Opt.clone())
 	}
+	for _, sc := range scs {
+		if sc.Name != "empties" {
+			continue
+		}
+		// a block range naming an EMPTY old file made rediff choose it as bsdiff target; bsdiff then
+		// died in a suffix-sort goroutine (found by this check's sweep; bsdiff.NewPSA, psa.go:42)
+		for i, m := range sc.Plain.Msgs {
+			if sh, ok := m.(*pwr.SyncHeader); ok && sh.FileIndex == 1 {
+				s := sc.Plain.clone()
+				ins := []proto.Message{
+					&pwr.SyncOp{Type: pwr.SyncOp_BLOCK_RANGE, FileIndex: 1, BlockIndex: 0, BlockSpan: -1},
+					&pwr.SyncOp{Type: pwr.SyncOp_BLOCK_RANGE, FileIndex: 0, BlockIndex: 0, BlockSpan: 1},
+				}
+				s.Msgs = append(s.Msgs[:i+1:i+1], append(ins, s.Msgs[i+1:]...)...)
+				plan(sc, "plain", c10FRediff, "block ranges naming an empty old file (rediff maps to it, bsdiff on empty input)", s)
+				plan(sc, "plain", c10FPatFresh, "block ranges naming an empty old file", s)
+				break
+			}
+		}
+	}
 	if blocks != nil {
 		// #14: container needs more hashes than the signature carries
 		n := len(blocks.Sig.Msgs)
@@ -258,13 +278,13 @@ func c10Coq(p *c10Plan, r *c10Res, lim *c10Limits) (group, term string) {
 		if p.Job.HasWL {
 			wl = "(Some " + c10ZList(p.Job.WL) + ")"
 		}
-		return "pat", fmt.Sprintf("($ID%%N, %s, %s, %s, %d, %s, %s)", c10ZList(c10FileSizes(p.Stream.TC)), c10ZList(c10FileSizes(p.Stream.SC)), wl, lim.SeekMax, frames, c10Cls(r.Class))
+		return "pat", fmt.Sprintf("mkpat $ID%%N %s %s %s %d %s %s", c10ZList(c10FileSizes(p.Stream.TC)), c10ZList(c10FileSizes(p.Stream.SC)), wl, lim.SeekMax, frames, c10Cls(r.Class))
 	case c10FRediff:
-		return "red", fmt.Sprintf("($ID%%N, %s, %s, %s, %s)", c10ZList(c10FileSizes(p.Stream.TC)), c10ZList(c10FileSizes(p.Stream.SC)), frames, c10Cls(r.Class))
+		return "red", fmt.Sprintf("mkred $ID%%N %s %s %s %s", c10ZList(c10FileSizes(p.Stream.TC)), c10ZList(c10FileSizes(p.Stream.SC)), frames, c10Cls(r.Class))
 	case c10FSig:
-		return "sig", fmt.Sprintf("($ID%%N, %s, %s, %s)", c10ZList(c10FileSizes(p.Stream.SC)), frames, c10Cls(r.Class))
+		return "sig", fmt.Sprintf("mksig $ID%%N %s %s %s", c10ZList(c10FileSizes(p.Stream.SC)), frames, c10Cls(r.Class))
 	case c10FOverlay:
-		return "ovl", fmt.Sprintf("($ID%%N, %d, %d, %s, %s)", lim.SeekMax, lim.WriteMax, frames, c10Cls(r.Class))
+		return "ovl", fmt.Sprintf("mkovl $ID%%N %d %d %s %s", lim.SeekMax, lim.WriteMax, frames, c10Cls(r.Class))
 	}
 	return "", ""
 }
